@@ -212,7 +212,7 @@ func init() {
 
 func runC01(rc *RunCtx, i int) {
 	r := rc.CaseRand(i)
-	o := world.BuildOpts{MoreMerge: i%3 == 0, HighFPR: i%2 == 0, ExtFiles: i%5 == 0}
+	o := world.BuildOpts{MoreMerge: i%3 == 0, HighFPR: i%2 == 0, ExtFiles: i%5 == 0, BigRegion: i%40 == 5}
 	c, err := buildDP(rc, i, o, false)
 	if err != nil {
 		rc.Violate(i, "scenario-failed", "", "fault-free scenario failed: "+err.Error(), nil)
@@ -225,6 +225,17 @@ func runC01(rc *RunCtx, i int) {
 	rc.Res.Count("rows_stored", int64(c.d.Rows))
 	rc.Res.Count("stores."+string(c.w.Kind), 1)
 	rc.Res.Count("tokenizer."+c.w.Tok.Name, 1)
+	for _, x := range c.d.Ext {
+		rc.Res.Count("ext_files", 1)
+		rc.Res.Count("ext_blocks_without_filters", int64(x.NoBlockFilt))
+		rc.Res.Count("ext_blocks_one_filter_absent", int64(x.Dropped))
+		if x.NoFileFilt {
+			rc.Res.Count("ext_files_without_file_filters", 1)
+		}
+		if x.RegionBytes > 4<<20 {
+			rc.Res.Count("ext_files_multi_chunk_region", 1)
+		}
+	}
 	if msg := c.conservation(); msg != "" {
 		rc.Violate(i, "stored-rows-lost", "", msg, c.d)
 		return
